@@ -16,6 +16,8 @@ def arms_of(v):
                 pk = g[1]
                 names = set(pk) if isinstance(pk, tuple) else {pk}
                 out.append((names, g[2], x))
+            elif g[0] == "not" and isinstance(g[1], tuple) and g[1][:1] == ("arm",):
+                out.append(({"_"}, g[1][2], x))          # catch-all arm of a two-way branch (`_ =>`, `else`, `!matches!`)
             else:
                 return None
         return out
